@@ -101,7 +101,9 @@ class Inventory:
         node attributes being those without any of the four non-node markers)"""
         out = set()
         if sec in ("attributes", "properties"):
-            return set(self.entries["properties"])
+            # attribute definitions carry properties, plus the attributes that apply to every schema element
+            return set(self.entries["properties"]) | {n for n, i in self.entries["attributes"].items()
+                                                      if "elementDomain" in i["attrs"] or "elementProperty" in i["attrs"]}
         for name, info in self.entries["attributes"].items():
             a = info["attrs"]
             if self.gen83:
@@ -270,7 +272,7 @@ def gen_cases(inv, all_bundled, rng, per_kind, successor=None):
                 "tags", tag=n, attr=attr, what="%s on non-placeholder" % attr)
         # ---- deprecatedFrom unknown or not older than the schema
         pos = [(sec, n) for sec in ("tags", "units", "unitClasses", "unitModifiers", "valueClasses", "attributes")
-               for n in sorted(inv.entries[sec])]
+               if "deprecatedFrom" in inv.declared_for(sec) for n in sorted(inv.entries[sec])]
         for sec, n in sample(pos, per_kind * 2):
             lib = inv.entries[sec][n]["lib"] if partnered else inv.library
             lib = lib or ""
@@ -285,13 +287,14 @@ def gen_cases(inv, all_bundled, rng, per_kind, successor=None):
             add("deprecated", [{"op": "set_attr", "section": sec, "name": n, "attr": "deprecatedFrom", "value": ver}],
                 sec, tag=n, attr="deprecatedFrom", token="'%s'" % ver, what="deprecatedFrom=%s (own %s)" % (ver, own))
         # ---- non-positive conversion factor
-        pos = [("units", n) for n in sorted(inv.entries["units"])] + [("unitModifiers", n) for n in sorted(inv.entries["unitModifiers"])]
+        pos = [(sec, n) for sec in ("units", "unitModifiers") if "conversionFactor" in inv.declared_for(sec)
+               for n in sorted(inv.entries[sec])]
         for sec, n in sample(pos):
             val = rng.choice(["0", "0.0", "-1", "-2.5", "-10^3", "-0.001", "0e0", "-1e-3"])
             add("conversion_factor", [{"op": "set_attr", "section": sec, "name": n, "attr": "conversionFactor", "value": val}],
                 sec, tag=n, attr="conversionFactor", what="conversionFactor=" + val)
         # ---- default units that are not a unit of the class
-        for c in sample(sorted(inv.entries["unitClasses"])):
+        for c in sample(sorted(inv.entries["unitClasses"]) if "defaultUnits" in inv.declared_for("unitClasses") else []):
             own_units = [u.casefold() for u in inv.class_units[c]]
             foreign = [u for u in sorted(inv.entries["units"]) if inv.unit_class_of[u] != c and
                        not any(u.casefold().endswith(o) or u.casefold().endswith(o + "s") or u.casefold().endswith(o + "es")
@@ -300,9 +303,8 @@ def gen_cases(inv, all_bundled, rng, per_kind, successor=None):
             add("default_units", [{"op": "set_attr", "section": "unitClasses", "name": c, "attr": "defaultUnits", "value": val}],
                 "unitClasses", tag=c, attr="defaultUnits", token=val, what="defaultUnits=" + val)
         # ---- unknown allowedCharacter value
-        pos = [("valueClasses", n) for n in sorted(inv.entries["valueClasses"])]
-        if inv.gen83:
-            pos += [("units", n) for n in sorted(inv.entries["units"])] + [("unitModifiers", n) for n in sorted(inv.entries["unitModifiers"])]
+        pos = [(sec, n) for sec in ("valueClasses", "units", "unitModifiers") if "allowedCharacter" in inv.declared_for(sec)
+               for n in sorted(inv.entries[sec])]
         for sec, n in sample(pos):
             bad = rng.choice(["zorkchars", "ab", "Letters", "letter", "upper-case"])
             old = inv.entries[sec][n]["attrs"].get("allowedCharacter")
@@ -314,7 +316,7 @@ def gen_cases(inv, all_bundled, rng, per_kind, successor=None):
                 what="allowedCharacter=" + ",".join(vals))
         # ---- foreign inLibrary name
         pos = [(sec, n) for sec in ("tags", "units", "unitClasses", "unitModifiers", "valueClasses")
-               for n in sorted(inv.entries[sec])]
+               if "inLibrary" in inv.declared_for(sec) for n in sorted(inv.entries[sec])]
         other = [l for l in ("score", "testlib", "lang", "zorklib") if l != inv.library]
         for sec, n in sample(pos, per_kind * 2):
             val = rng.choice(other)
